@@ -86,6 +86,10 @@ GUARDS = {
     # raises AssertionError("lstat(...): Not a directory") from the dirstate code (commit
     # and revert of selected files, status of selected files)
     "bzr_enotdir_filter": True,
+    # bzr: revert that re-creates a removed (unversioned) directory and has to move a still
+    # versioned entry back into it raises DuplicateKey (the directory is versioned once by
+    # _alter_files and once more by resolve_unversioned_parent)
+    "bzr_revert_removed_parent": True,
     # bzr: add of a path whose parent directory was unversioned (remove --keep) but is still
     # in the basis is accepted: the dirstate then holds an entry without a parent
     # (_validate fails, inventory and iter_changes disagree)
@@ -113,9 +117,12 @@ GUARDS = {
     # directory (and its children) that took over the old path of a renamed parent; the
     # generic code selects by id and does not report them
     "dirstate_filter_overinclusion": True,
-    # bzr: with a path filter that names the OLD path of a renamed directory,
-    # InterDirStateTree yields entries below it two or three times; revert of such paths
-    # then raises FileExistsError / DuplicateKey (same trans id handled twice)
+    # bzr: with a path filter, entries are reported more than once: InterDirStateTree yields
+    # entries below the OLD path of a renamed directory two or three times (revert of such
+    # paths then raises FileExistsError / DuplicateKey: same trans id handled twice); the
+    # generic code and InterCHKRevisionTree re-emit, from _handle_precise_ids, an already
+    # reported entry that sat in the source at the path of a reported entry's new parent
+    # (old ids are added after the "don't emit twice" subtraction)
     "bzr_filter_duplicates": True,
     # git: a commit whose changes name one path twice - as the source of a guessed copy /
     # rename and as a path that stays (modified file + new file with its old content), or a
@@ -397,6 +404,8 @@ class MTree:
             for p in self.inv:
                 if any(self.dkind(a) == FILE for a in ancestors(p) if a):
                     return "git_enotdir"
+        if "bzr_dir_replaced" in self.guards and self.dir_replaced():
+            return "bzr_dir_replaced"
         return None
 
     def apply(self, op):
@@ -767,6 +776,10 @@ class MTree:
             added, deleted, modified = self._git_delta()
             if sel is not None and added and (deleted or modified):
                 raise Unmodelled()  # guessed renames / copies pull paths outside the selection in
+            if sel is not None:
+                for q in self.inv:
+                    if any(inside(s, q) for s in sel) and any(a in self.basis for a in ancestors(q) if a):
+                        raise Unmodelled()  # a selected path turns an unselected file of the basis into a directory
             if "git_commit_path_reuse" in self.guards:
                 if added and modified:
                     raise Unmodelled()
@@ -1014,6 +1027,8 @@ class MTree:
             pn = byid.get(pfid)
             if pn is None:
                 raise Unmodelled()  # parent is not part of the working tree any more
+            if "bzr_revert_removed_parent" in self.guards and pn.get("new") and not n.get("new"):
+                raise Unmodelled()
             detach(n)
             name = posixpath.basename(bp)
             if name in pn["kids"]:
